@@ -139,4 +139,23 @@ for fn, nm, lmax in ((5, 'mem_prim_move8', 36), (6, 'mem_prim_move16', 36), (7, 
       cbmc_flags=['--max-field-sensitivity-array-size', '4000'],
       bound='enumerated: every element alignment, len 1..%d elements, src-dest in +-{1,3,17,64} elements' % lmax)
 
+# ---- memory wrappers, loop-free, primitives replaced by their contracts (engine C)
+MEM_COMMON = ['src/mem/safe_mem_constraint.c', 'src/ignore_handler_s.c']
+PRIMS = ['mem_prim_set', 'mem_prim_set16', 'mem_prim_set32', 'mem_prim_move', 'mem_prim_move8', 'mem_prim_move16', 'mem_prim_move32']
+MEMFAM = [
+    (1, 'memset_s', 'src/mem/memset_s.c'), (2, 'memset16_s', 'src/extmem/memset16_s.c'), (3, 'memset32_s', 'src/extmem/memset32_s.c'),
+    (4, 'memzero_s', 'src/extmem/memzero_s.c'), (5, 'memzero16_s', 'src/extmem/memzero16_s.c'), (6, 'memzero32_s', 'src/extmem/memzero32_s.c'),
+    (7, 'memcpy_s', 'src/mem/memcpy_s.c'), (8, 'memmove_s', 'src/mem/memmove_s.c'),
+    (9, 'memcpy16_s', 'src/extmem/memcpy16_s.c'), (10, 'memmove16_s', 'src/extmem/memmove16_s.c'),
+    (11, 'memcpy32_s', 'src/extmem/memcpy32_s.c'), (12, 'memmove32_s', 'src/extmem/memmove32_s.c'),
+    (13, 'wmemcpy_s', 'src/wchar/wmemcpy_s.c'), (14, 'wmemmove_s', 'src/wchar/wmemmove_s.c'),
+]
+for fn, nm, path in MEMFAM:
+    props = ['C01', 'C02', 'C05', 'C06'] + (['C18'] if fn <= 6 else ['C04', 'C07'])
+    J('C.%s' % nm, props, 'C', 'harness/memfam.c', sources=[path, PRIM] + MEM_COMMON, defines=['FN=%d' % fn],
+      replace=PRIMS, replay=True, functions=['_%s_chk' % nm], timeout=600, mem_gb=8,
+      note='loop-free wrapper, all sizes symbolic (64-bit), arena of symbolic size <= 2^30; mem_prim_* replaced by contracts (include/prim_contracts.h) which are checked bounded by B.mem_prim_*',
+      assumptions=['callee contracts of mem_prim_set*/mem_prim_move* (prim_contracts.h) are checked only bounded, by enumeration (jobs B.mem_prim_*)',
+                   'C18: compilers do not elide stores that precede a full memory barrier (or are made by explicit_bzero); the barrier intrinsic is given a ghost body'])
+
 BY_NAME = {j.name: j for j in JOBS}
